@@ -347,6 +347,7 @@ pub fn replay_main(profiles: &[Profile], path: &str) -> i32 {
 // known findings
 // ------------------------------------------------------------------------------------------------
 
+#[allow(dead_code)]
 pub struct Known {
     pub property: String,
     pub clause: String,
